@@ -191,6 +191,49 @@ func readGroupFiles(path string, maxIndex int) (sizes []int, all []byte) {
 	return
 }
 
+// checkFileFrames: every file of the group must start on a frame boundary — decoded ALONE from its
+// first byte it yields whole written records until end-of-log (the newest-first search and
+// repairWalFile read single files that way).
+func checkFileFrames(lc *logCase, path string, maxIndex int, out sink) {
+	pos := 0
+	for i := 0; i <= maxIndex; i++ {
+		p := path
+		if i < maxIndex {
+			p = fmt.Sprintf("%s.%03d", path, i)
+		}
+		b, _ := os.ReadFile(p)
+		lo, hi := -1, -1
+		for k, o := range lc.off {
+			if o == pos {
+				lo = k
+			}
+			if o == pos+len(b) {
+				hi = k
+			}
+		}
+		if lo < 0 || hi < 0 {
+			nmsg, ec := decodeCount(b)
+			out("file-starts-mid-frame", fmt.Sprintf("file #%d of %d holds bytes %d..%d of the log, not a whole number of records (record boundaries %v); read alone it gives %d messages then %s",
+				i, maxIndex+1, pos, pos+len(b), lc.off, nmsg, ec))
+			return
+		}
+		sub := &logCase{recs: lc.recs[lo:hi], W: b, off: shift(lc.off[lo:hi+1], -pos), name: lc.name, shape: lc.shape}
+		ci := corrInfo{class: "clean", rec: hi - lo, kStrict: hi - lo, clean: true}
+		checkStream(sub, bytes.NewReader(b), len(b), &ci, func(o, what string) {
+			out("file-starts-mid-frame", fmt.Sprintf("file #%d read alone (%s): %s", i, o, what))
+		})
+		pos += len(b)
+	}
+}
+
+func shift(a []int, d int) []int {
+	b := make([]int, len(a))
+	for i, v := range a {
+		b[i] = v + d
+	}
+	return b
+}
+
 // checkGroupWrite drives a real BaseWAL over a real autofile.Group: Start (writes EndHeight 0), every
 // message through Write/WriteSync, the group's own head-size check after every write, then reads
 // everything back through a GroupReader, searches every height, restarts the WAL and does it again.
